@@ -30,6 +30,9 @@ structure GenCfg where
   bcn : RegParams := { denom := "nund", feeReg := 1, feeRec := 1, feeBuy := 1, defLimit := 1, maxLimit := 1 }
   bcnStart : Nat := 1
   strFee : Int := 0
+  /-- raw address bytes of the scenario and module accounts (`G addr` lines); needed wherever store order
+  depends on address bytes (whitelist, locked/spent entries, streams) -/
+  addrBytes : List (Addr × List Nat) := []
   deriving Repr
 
 def moduleAccounts : List Addr := [Mbond, Mdist, Ment, Mfee, Mgov, Mnbond, Mstr, Mxfer]
